@@ -644,6 +644,39 @@ func look3Family() []Pat {
 	return finalize("LOOK3", keep, map[string]bool{}, false)
 }
 
+// ---- LOOKLOOP: a counted group loop whose body is (single-character loop, literal) or (literal, loop), inside a
+// lookbehind (its content runs right-to-left inside a left-to-right pattern), a lookahead, or an atomic group
+// (run under RightToLeft as well): the "last expression of the loop body" that the end-of-atomic-context rewrite
+// looks at is the FIRST one in a right-to-left subtree (`(?<=(?:a*ba){2})c` on baabac) ----
+
+func lookLoopFamily() []Pat {
+	loops := []*Node{rep(lit('a'), 0, -1, false), rep(set(false, 'a', 'b'), 0, -1, false), rep(set(true, 'c'), 1, -1, false), rep(anyc(), 0, -1, false), rep(lit('a'), 0, 1, false)}
+	lits := []string{"ba", "ca", "ab", "b", "ac"}
+	counts := []quant{{2, 2, false}, {2, -1, false}, {1, 2, false}, {1, -1, false}}
+	var trees []*Node
+	for _, lp := range loops {
+		for _, l := range lits {
+			for _, order := range []int{0, 1} {
+				body := cat(lp, litStr(l))
+				if order == 1 {
+					body = cat(litStr(l), lp)
+				}
+				for _, cn := range counts {
+					g := rep(&Node{K: KGroup, Kids: []*Node{body}}, cn.min, cn.max, false)
+					trees = append(trees,
+						cat(look(false, false, g), lit('c')),
+						cat(look(false, true, g), lit('c')),
+						cat(lit('c'), look(true, false, g)),
+						atomicg(g),
+						cat(atomicg(g), lit('c')),
+						cat(lit('c'), atomicg(g)))
+				}
+			}
+		}
+	}
+	return finalize("LOOKLOOP", trees, map[string]bool{}, false)
+}
+
 // ---- ALTREP: alternations whose branches start with the same single-character / class repeater but differ in its
 // bounds (the shape that prefix factoring of repeaters must leave alone unless minimum AND maximum agree) ----
 
